@@ -251,6 +251,10 @@ func (n *Nodis) LPopRPush(source, destination string) []byte {
 
 			return nil
 		}
+		if dst := tx.writeKey(destination, nil); dst.isOk() {
+			// a destination of another type fails the command before anything is popped
+			_ = dst.value.(*list.LinkedList)
+		}
 		v = meta.value.(*list.LinkedList).LPop(1)
 		if v == nil {
 			return nil
@@ -281,6 +285,10 @@ func (n *Nodis) RPopLPush(source, destination string) []byte {
 		meta := tx.writeKey(source, nil)
 		if !meta.isOk() {
 			return nil
+		}
+		if dst := tx.writeKey(destination, nil); dst.isOk() {
+			// a destination of another type fails the command before anything is popped
+			_ = dst.value.(*list.LinkedList)
 		}
 		v = meta.value.(*list.LinkedList).RPop(1)
 		if v == nil {
